@@ -746,7 +746,7 @@ ASSUMPTIONS = ['tolerance_factor fixed to the default 1e-12; the comparison tole
 MUTANTS = {
     'sel_probe_point_keeps_int_dtype': {'expect': 'first kept cell', 'module': 'mesh', 'contract': 'Mesh.sel', 'config': {'ndim': 1, 'axis': 0, 'kind': 'range', 'corners': 'int'},
                                         'old': """                    test_point = self.region.pmin.copy().astype(
-                        max(self.region.pmin.dtype, type(point))
+                        np.result_type(self.region.pmin.dtype, type(point))
                     )""", 'new': """                    test_point = self.region.pmin.copy()"""},
     'range_upper_exclusive': {'module': 'mesh', 'contract': 'Mesh.sel', 'config': {'ndim': 2, 'axis': 0, 'kind': 'range'},
                               'old': 'max_val = selection[1] + step', 'new': 'max_val = selection[1] - step'},
